@@ -12,3 +12,4 @@ CONSTANTS
   TopicNames = {"A", "B"}
   MaxOps = 16
   Warm = 0
+  ChurnAt = {}
